@@ -53,6 +53,8 @@ def exc_kind(e: BaseException) -> str:
             return "negativeSize"
         if "Invalid `Hardware` comparison" in msg:
             return "missingStorage"
+        if "Could not retrieve allocation" in msg:
+            return "unknownJob"
         return "WorkflowExecutionException"
     if isinstance(e, ArithmeticError):
         return "mountMismatch"
